@@ -134,9 +134,31 @@ pub fn answer(e: &Engine, q: &Q) -> String {
 
 fn case_material(seed: u64, idx: u64, nq: usize) -> (Vec<String>, Vec<Q>, bool, u8) {
     let mut r = Rng::for_case(seed, "c19", idx);
-    let rules = gen_engine_rules(&mut r);
-    let qs = gen_queries(&mut r, &rules, nq);
-    (rules, qs, r.chance(1, 2), (idx % 3) as u8)
+    let mut rules = gen_engine_rules(&mut r);
+    let mut qs = gen_queries(&mut r, &rules, nq);
+    let mut optimize = r.chance(1, 2);
+    // (every 40th differential case; every 160th concurrent batch, which is 400 queries x N threads)
+    if (nq <= 24 && idx % 40 == 13) || (nq > 24 && nq >= 400 && idx % 160 == 13) {
+        // heavy case: hundreds of near-twin wildcard rules that share their only indexable token
+        // (one big fused regex set when optimised) and one large bounded-repetition regex rule;
+        // both builds must compile and answer them alike
+        let n = 150 + r.below(350);
+        let exc = r.chance(1, 3);
+        for i in 0..n {
+            rules.push(format!("{}/adframe/*zone{}^", if exc { "@@" } else { "" }, i));
+        }
+        if exc {
+            rules.push("/adframe/".to_string());
+        }
+        rules.push(r"/^https?:\/\/[a-z0-9-]{1,63}\.example\.net\/([a-z0-9_-]{1,64}\/){1,48}pixel\.gif/".to_string());
+        for k in [0usize, 17, n - 1, n + 5] {
+            qs.push(Q::Net(format!("https://cdn.example.net/adframe/v2/zone{}?cb=1", k), "https://o.org/".into(), "script"));
+        }
+        qs.push(Q::Net("https://cdn.example.net/a/b_c/d-e/pixel.gif".into(), "https://o.org/".into(), "image"));
+        qs.push(Q::Net("https://cdn.example.net/static/zone17?cb=1".into(), "https://o.org/".into(), "script"));
+        optimize = true;
+    }
+    (rules, qs, optimize, (idx % 3) as u8)
 }
 
 /// Peer mode (any configuration): print one digest per differential case.
